@@ -135,6 +135,13 @@ class Build:
             self.scratch = os.path.join(base, "verif-%d" % os.getpid())
             shutil.rmtree(self.scratch, ignore_errors=True)
             os.makedirs(self.scratch)
+            # scratch of earlier runs that were killed before they could clean up (their process no longer exists)
+            try:
+                for n in os.listdir(base):
+                    if n.startswith("verif-") and n[6:].isdigit() and not os.path.exists("/proc/" + n[6:]):
+                        shutil.rmtree(os.path.join(base, n), ignore_errors=True)
+            except OSError:
+                pass
         return self.scratch
 
 
